@@ -436,10 +436,15 @@ class Env:
             exec(compile(src, self.name, "exec"), mod.__dict__)  # noqa: S102
             ine = self.mk(self.TestCaseExecutor, self.sp.sharing_registries())
             sub = self.mk(self.SubprocessTestCaseExecutor, self.sp.sharing_registries())
-            ine.module_provider.add_mutated_version(self.name, mod)
-            sub.module_provider.add_mutated_version(self.name, mod)
-            self._mutants[k] = (ine, sub)
-        return self._mutants[k]
+            self._mutants[k] = (ine, sub, mod)
+            self.register_mutant(k)
+        return self._mutants[k][:2]
+
+    def register_mutant(self, k: int) -> None:
+        """add_mutated_version on both executors (Pynguin does this before every mutant run)."""
+        ine, sub, mod = self._mutants[k]
+        ine.module_provider.add_mutated_version(self.name, mod)
+        sub.module_provider.add_mutated_version(self.name, mod)
 
     def executors(self, per: float, maxt: float):
         """Pair A with other timeouts (same subject properties)."""
